@@ -247,6 +247,13 @@ def validate_trace(module, cfg, trace_path, tag, timeout=900, workers=1, extra_e
     if not r["ok"] and not r["errors"]:
         raise ToolError(f"trace validation did not finish on {module}; see work/tlc_{tag}.log\n" +
                         "\n".join(out.splitlines()[-15:]))
+    # a failure of the tool chain itself (specification does not parse, TLC cannot evaluate a step, e.g. because a
+    # logged field is missing) is not a verdict about the code
+    if not r["ok"] and r["rejected_at"] is None and not r.get("violated") and re.search(
+            r"Parsing or semantic analysis failed|TLC threw an unexpected exception|unable to fingerprint|"
+            r"Attempted to (access|apply|select|check|compare)|was not in the domain|java\.lang\.", out):
+        raise ToolError(f"TLC could not evaluate {module} on the recorded trace; see work/tlc_{tag}.log\n" +
+                        "\n".join(l for l in out.splitlines() if "rror" in l)[:1500])
     return r
 
 
